@@ -3029,6 +3029,13 @@ func ruleRosterRemovedByMembership(r *Report, rule string) {
 		ok2 := false
 		if removal != nil && loop != nil && loop.Cond != nil {
 			ok2 = !g.reachesAvoiding(as, loop.Cond, removal) && readsVar(info, loop.Cond, list)
+		} else if removal != nil && loop != nil && loop.Cond == nil && len(loop.Body.List) > 0 {
+			// `for { if <exit test on the list> { break } ... }`: the next round starts at the first statement of the body
+			var head ast.Node = loop.Body.List[0]
+			if is, isIf := loop.Body.List[0].(*ast.IfStmt); isIf {
+				head = is.Cond
+			}
+			ok2 = !g.reachesAvoiding(as, head, removal) && readsVar(info, head, list)
 		} else if removal != nil && loop == nil {
 			ok2 = !g.exitAvoiding(as, removal) // straight-line code: the removal follows on every path
 		}
@@ -4876,7 +4883,20 @@ func rulePageTrimCoversSizeZero(r *Report, rule string) {
 	n := 0
 	ast.Inspect(fi.Decl.Body, func(x ast.Node) bool {
 		se, ok := x.(*ast.SliceExpr)
-		if !ok || se.High == nil || !isField(info, se.High, "SearchRequest", "Size") {
+		if !ok || se.High == nil {
+			return true
+		}
+		// the upper bound is req.Size, or min(.., req.Size, ..) (possibly through a single-definition local)
+		hi := ast.Unparen(resolveCopies(info, fi.Decl.Body, se.High))
+		isSize := isField(info, hi, "SearchRequest", "Size")
+		if c, isCall := hi.(*ast.CallExpr); isCall && calleeBuiltin(info, c) == "min" {
+			for _, a := range c.Args {
+				if isField(info, resolveCopies(info, fi.Decl.Body, a), "SearchRequest", "Size") {
+					isSize = true
+				}
+			}
+		}
+		if !isSize {
 			return true
 		}
 		as := se // the cut may be assigned or returned directly
